@@ -368,10 +368,10 @@ def cases(tier: str, seed: int) -> List[Case]:
                 for st in steps:
                     if quick and (len(layout) > 3 or nmany > 1 or (st is not None and nmany > 0)):
                         continue
-                    if not quick and len(layout) > 4:
+                    if not quick and (len(layout) > 3 or nmany > 2):
                         continue
                     d2 = dict(data, step=st, lim=min(8, maxn + 1))
-                    out.append(Case("h_getitem_slice", f"gs:{nm}:step{st}", d2, timeout=60 if quick else 900))
+                    out.append(Case("h_getitem_slice", f"gs:{nm}:step{st}", d2, timeout=60 if quick else 300))
             out.append(Case("h_len", f"len:{nm}", data, timeout=t))
     # unpack shapes
     utl = 3 if quick else 5
